@@ -70,8 +70,8 @@ fn check(ops: &[Op], st: &mut Stats) -> String {
 }
 
 fn alphabet() -> Vec<Op> {
-    let mut v = vec![Op::Tcp, Op::Udp(None), Op::Udp(Some(40000)), Op::Relay, Op::Mode(true), Op::Mode(false), Op::Admin(Some("secret".into())), Op::Admin(None), Op::Reqi(7), Op::Flags(0), Op::Flags(0x0ffc), Op::Flags(36),
-                     Op::Prefix(Some('!')), Op::Prefix(None), Op::Iname(Some("verif".into())), Op::Iname(None), Op::Interval(Some(500)), Op::Interval(None)];
+    let mut v = vec![Op::Tcp, Op::Udp(None), Op::Udp(Some(40000)), Op::Relay, Op::Mode(true), Op::Mode(false), Op::Admin(Some("secret".into())), Op::Admin(Some("0123456789abcdef".into())), Op::Admin(None), Op::Reqi(7), Op::Flags(0), Op::Flags(0x0ffc), Op::Flags(36),
+                     Op::Prefix(Some('!')), Op::Prefix(None), Op::Iname(Some("verif".into())), Op::Iname(Some("A-16-char-name-x".into())), Op::Iname(None), Op::Interval(Some(500)), Op::Interval(None)];
     for i in 0..10 { v.push(Op::Flag(i, true)); } for i in [0usize, 1, 5, 9] { v.push(Op::Flag(i, false)); }
     v
 }
@@ -136,7 +136,7 @@ pub fn run(a: &Args) {
     // random long sequences with random arguments
     for _ in 0..(if a.thorough() { 50_000 } else { 5_000 }) {
         let len = rng.range(4, 30) as usize;
-        let ops: Vec<Op> = (0..len).map(|_| match rng.below(12) { 0 => Op::Flags(rng.next() as u16 & 0x0fff), 1 => Op::Reqi(rng.byte()), 2 => Op::Interval(Some(rng.below(65536))), 3 => Op::Udp(if rng.chance(1, 2) { Some(rng.range(1, 65535) as u16) } else { None }), 4 => Op::Flag(rng.below(10) as usize, rng.chance(1, 2)), 5 => Op::Prefix(Some((rng.range(33, 126) as u8) as char)), 6 => Op::Admin(Some(String::from_utf8(crate::layout::ascii_text(&mut rng, 10)).unwrap())), 7 => Op::Iname(Some(String::from_utf8(crate::layout::ascii_text(&mut rng, 14)).unwrap())), _ => rng.pick(&al).clone() }).collect();
+        let ops: Vec<Op> = (0..len).map(|_| match rng.below(12) { 0 => Op::Flags(rng.next() as u16 & 0x0fff), 1 => Op::Reqi(rng.byte()), 2 => Op::Interval(Some(rng.below(65536))), 3 => Op::Udp(if rng.chance(1, 2) { Some(rng.range(1, 65535) as u16) } else { None }), 4 => Op::Flag(rng.below(10) as usize, rng.chance(1, 2)), 5 => Op::Prefix(Some((rng.range(33, 126) as u8) as char)), 6 => Op::Admin(Some(String::from_utf8({ let l = *rng.pick(&[0usize, 1, 10, 15, 16, 17, 24]); crate::layout::ascii_text(&mut rng, l) }).unwrap())), 7 => Op::Iname(Some(String::from_utf8({ let l = *rng.pick(&[0usize, 1, 14, 15, 16, 17, 24]); crate::layout::ascii_text(&mut rng, l) }).unwrap())), _ => rng.pick(&al).clone() }).collect();
         let o = check(&ops, &mut st); st.evaluations += 1; st.distinct_nontrivial += 1;
         out.case(&format!("builder {}", ops.iter().map(tok).collect::<Vec<_>>().join(" ")), &o);
     }
